@@ -411,6 +411,18 @@ func checkErrorCarries(err error, ip itemPlan) string {
 	return ""
 }
 
+// decodableByConstruction: a response every item of which has nothing in it that a decoder could trip over - no payload
+// at all, or a payload next to no Operation (which nobody can interpret, so it is passed over). Whether such a response
+// "can be decoded" is not for the library's decoder to say: what its failed items say must reach the caller.
+func decodableByConstruction(rp respPlan) bool {
+	for _, ip := range rp.Items {
+		if ip.PayloadMode != "absent" && ip.OpMode != "absent" {
+			return false
+		}
+	}
+	return len(rp.Items) > 0
+}
+
 func newScriptedClient(ver kmip.ProtocolVersion, srv *rawServer, enforce bool) (*kmipclient.Client, []*memnet.Conn, error) {
 	var conns []*memnet.Conn
 	opts := []kmipclient.Option{kmipclient.WithDialerUnsafe(func(ctx context.Context) (net.Conn, error) {
@@ -475,7 +487,7 @@ func c12Run(c c12Case) (sig string, err error) {
 			rp := c.Plans[0]
 			if reqTree, perr := ttlvref.Parse(srv.Requests[0], ttlvref.Lenient); perr == nil {
 				var rm kmip.ResponseMessage
-				if safely(func() error { return ttlv.UnmarshalTTLV(buildResponse(rp, reqTree), &rm) }) == nil {
+				if (safely(func() error { return ttlv.UnmarshalTTLV(buildResponse(rp, reqTree), &rm) }) == nil || decodableByConstruction(rp)) {
 					for i, ip := range rp.Items {
 						if ip.Status == 1 {
 							if s := checkErrorCarries(derr, ip); s != "" {
@@ -560,7 +572,7 @@ func c12Run(c c12Case) (sig string, err error) {
 			// number of request items): the call fails, and what the failed items say is still in the error
 			if reqTree, perr := ttlvref.Parse(srv.Requests[len(srv.Requests)-1], ttlvref.Lenient); perr == nil && len(srv.Requests) > 0 {
 				var rm kmip.ResponseMessage
-				if safely(func() error { return ttlv.UnmarshalTTLV(buildResponse(rp, reqTree), &rm) }) == nil {
+				if (safely(func() error { return ttlv.UnmarshalTTLV(buildResponse(rp, reqTree), &rm) }) == nil || decodableByConstruction(rp)) {
 					for i, ip := range rp.Items {
 						if ip.Status == 1 {
 							if s := checkErrorCarries(berr, ip); s != "" {
@@ -658,7 +670,7 @@ func c12Run(c c12Case) (sig string, err error) {
 	if len(srv.Requests) > 0 {
 		if reqTree, perr := ttlvref.Parse(srv.Requests[0], ttlvref.Lenient); perr == nil {
 			var rm kmip.ResponseMessage
-			decodable = safely(func() error { return ttlv.UnmarshalTTLV(buildResponse(rp, reqTree), &rm) }) == nil
+			decodable = (safely(func() error { return ttlv.UnmarshalTTLV(buildResponse(rp, reqTree), &rm) }) == nil || decodableByConstruction(rp))
 		}
 	}
 	if decodable {
